@@ -1336,7 +1336,16 @@ class VectorVariable:
         if isinstance(other, MatrixVectorProduct):
             # Check if the MatrixVectorProduct's vector is self
             if isinstance(other.vector, VectorVariable):
-                if other.vector is self or other.vector.name == self.name:
+                # "Same vector" means the same element variables in the same
+                # positions. Names do not identify views: x[0:4], x[0:4:2] and
+                # x[::-1] are all called "x[0:4]", every partial row of A "A[i,:]".
+                if other.vector is self or (
+                    other.vector.size == self.size
+                    and all(
+                        a is b
+                        for a, b in zip(other.vector._variables, self._variables)
+                    )
+                ):
                     # This is x.dot(A @ x) - return QuadraticForm for O(1) gradient
                     return QuadraticForm(self, other.matrix)
 
